@@ -280,7 +280,9 @@ class SoulSeekClient:
 
         try:
             await command.send(self)
-        except Exception:
+        except BaseException:
+            # Also release the expected response when the task is cancelled
+            # while sending, nobody would be waiting for it anymore
             if response and response_future:
                 response_future.cancel()
             raise
